@@ -223,6 +223,9 @@ func (r *JobRun) clearFaults() {
 }
 
 func sourceNames(cfg map[string]any) []string {
+	if ms, ok := cfg["_src"].(string); ok {
+		return []string{ms} // the dataset the job's source stands for (it reads it through a proxy dataset)
+	}
 	src, _ := cfg["source"].(map[string]any)
 	if src == nil {
 		return nil
@@ -336,6 +339,14 @@ func RunJobScenario(sc *Scenario) (vd *Verdict) {
 		return
 	}
 	r.H = h
+	for _, d := range sc.Datasets {
+		if d == "proxyP" && r.svc == nil {
+			r.svc = &c10Service{r: r}
+			oldT := http.DefaultTransport
+			http.DefaultTransport = r.svc
+			defer func() { http.DefaultTransport = oldT }()
+		}
+	}
 	for i := range sc.Ops {
 		if t, ok := sc.Ops[i].M["transform"].(map[string]any); ok && sc.Ops[i].K == "addJob" && t["Type"] == "HttpTransform" && r.svc == nil {
 			r.svc = &c10Service{r: r}
@@ -372,7 +383,12 @@ func RunJobScenario(sc *Scenario) (vd *Verdict) {
 		vd.Nontrivial = r.Stats["job_runs"] >= 1 && r.Stats["commits"] >= 1
 	}()
 	for _, d := range sc.Datasets {
-		if _, err := h.Dsm.CreateDataset(d, nil); err != nil {
+		var dcfg *server.CreateDatasetConfig
+		if d == "proxyP" {
+			// a proxy dataset in front of a remote that serves the changes of srcA
+			dcfg = &server.CreateDatasetConfig{ProxyDatasetConfig: &server.ProxyDatasetConfig{RemoteURL: "http://remote.sim/datasets/srcA"}}
+		}
+		if _, err := h.Dsm.CreateDataset(d, dcfg); err != nil {
 			vd.Verdict, vd.Message = "error", err.Error()
 			return
 		}
@@ -884,6 +900,9 @@ func sortedCopy(l []string) []string {
 // everything the transform returned reached the sink in source order.
 func (r *JobRun) checkTransformDelivery(id, jobType string, cfg map[string]any, lastErr string) *Violation {
 	src := sourceNames(cfg)[0]
+	if ms, ok := cfg["_src"].(string); ok {
+		src = ms // the dataset the job's source stands for (a proxy dataset)
+	}
 	d := r.M.DS[src]
 	variant, _ := cfg["_variant"].(string)
 	cell := fmt.Sprintf("n=%d,batch=%v,parallelism=%v,%s,%s", len(d.Versions), cfg["batchSize"], cfg["_parallelism"], jobType, variant)
@@ -938,7 +957,7 @@ func (r *JobRun) checkTransformDelivery(id, jobType string, cfg map[string]any, 
 		_ = cls
 		return viol("C10", "transform-delivery", "delivery-mismatch", "cell %s: [transform input] the source delivered %d entities %v, the transform received %d: %v", cell, len(expIDs), shortAll(expIDs), len(gotIn), shortAll(gotIn))
 	}
-	if r.svc != nil {
+	if r.svc != nil && cfg["_http"] == true {
 		// the service's own record: it was sent every source entity once, in source order
 		if sent := flatten(r.svc.got); strings.Join(sent, ",") != strings.Join(expIDs, ",") {
 			return viol("C10", "transform-delivery", "delivery-mismatch", "cell %s: [service input] the source delivered %v, the transform service was sent %v", cell, shortAll(expIDs), shortAll(sent))
